@@ -17,6 +17,23 @@ actions Start, BlockEpoch, UserForceClose, CloseEvent(L|R|P|breach|coop) and one
   (e) observed keys must be among the predicted ones; thorough: every predicted deterministic class is reproduced;
   (f) negative controls: a corrupted fail-back count must be rejected; a F3 trace must be rejected in strict mode.
 
+Part H - the HISTORY dimension of the go-to-chain decision (spec/ChainActions/ChainActionsHist*.tla, follow-up b12):
+a running arbitrator that sees a sequence of events (Start, Block, HtlcUpdate = notifyContractUpdate, SignalUpdate =
+UpdateContractSignals, AddInvoice / LearnPreimage between two blocks, ClockAdvance); the first sentence of C12 must hold
+at every block of every history.
+  (h1) exhaustive TLC (ChainActionsHistMC): 1 HTLC with the full attribute domain, 2 HTLCs with bounded domains; two
+       non-vacuity controls (StaleLookups, SignalRestartsGrace: the model check must fail GoesOnChainInTimeH);
+  (h2) ChainActionsHistGen: TLC -simulate from a seeded sample of universes (1-3 HTLCs; the sample replaces
+       ChainActionsHistCells.tla in the scratch copy);
+  (h3) harness/contractcourt/c12_hist_test.go replays every history on a real, started ChannelArbitrator (same go test
+       invocation as (c)) and records state / ForceCloseChan / PublishTx / fail-backs after every event;
+  (h4) ChainActionsHistTrace: the outcome of every chain-trigger pass is taken from the recorded line and judged by the
+       property invariants (GoesOnChainInTimeH, GoesOnChainOnlyWithReasonH, ForceClosesOnceH) and by conformance with
+       the code-shaped decision; a rejection is reported with key "C12:Hist:<invariant>:<event>";
+  (h5) negative controls: the decision erased from a recorded history (state / calls of the deciding line and all later
+       ones reset) and a fail-back count + 1 must both be rejected.
+C12_SKIP_HIST=1 skips part H, C12_ONLY_HIST=1 runs part H alone (development).
+
 Environment (development / controls): C12_OVERLAY='contractcourt/channel_arbitrator.go=/path/patched.go' (or VERIF_MUTATION),
 C12_F3C_REPAIRED=0 (model and validation with the order-dependent merge of the code before fix 1eb7c38; default 1),
 C12_F3AB_REPAIRED=1 (validate against the model with the candidate policy EarlyOK - use with mutations/C12/repairs/F3ab_*.diff),
@@ -38,10 +55,12 @@ SPEC = os.path.join(core.VERIF, "spec", "ChainActions")
 LEVEL = "model_checking"
 PKG = "./contractcourt/"
 HARNESS = ["contractcourt/c12_test.go"]
+HARNESS_ALL = HARNESS + ["contractcourt/c12_hist_test.go"]
 MC_WORKERS = int(os.environ.get("C12_MC_WORKERS", "4"))
 # the tree merges the two remote HTLC sets deterministically since fix 1eb7c38 (F3c); C12_F3C_REPAIRED=0 = the older code
 REPAIRED = os.environ.get("C12_F3C_REPAIRED", "1") not in ("", "0")
 REPAIRED_AB = os.environ.get("C12_F3AB_REPAIRED", "") not in ("", "0")
+SKIP_HIST = os.environ.get("C12_SKIP_HIST", "") not in ("", "0")
 
 WHAT = {
     "F3a": "offered HTLC that is dust on the confirmed commitment (or dangling dust) is NEVER failed back upstream when the "
@@ -278,17 +297,25 @@ def pad(s, nh):
 
 
 # ---------------------------------------------------------------------------------------------- execute + validate
-def execute(ck, scheds, name, reps):
+def execute(ck, scheds, name, reps, hist=None):
+    """One go test invocation for the cell executor and (hist: list of histories) the history executor.
+    Returns the cell trace (and the history trace)."""
     d = ck.scratch("sched_" + name)
     sp = os.path.join(d, "sched.ndjson")
     core.write_ndjson(sp, scheds)
-    res = ck.go_test(PKG, "^TestVerifC12ChainActions$", HARNESS, name="exec_" + name, timeout=2400,
-                     env={"VERIF_SCHED": sp, "C12_REPS": reps, "C12_WORKERS": 3, "TMPDIR": "/dev/shm"},
-                     extra_overlay=overlay())
+    env = {"VERIF_SCHED": sp, "C12_REPS": reps, "C12_WORKERS": 3, "TMPDIR": "/dev/shm"}
+    run = "^TestVerifC12ChainActions$"
+    if hist is not None:
+        hp = os.path.join(d, "sched_hist.ndjson")
+        core.write_ndjson(hp, hist)
+        env.update({"C12H_SCHED": hp, "C12H_REPS": 2 if ck.tier == "thorough" else 1})
+        run = "^TestVerifC12(ChainActions|Hist)$" if scheds else "^TestVerifC12Hist$"
+    res = ck.go_test(PKG, run, HARNESS_ALL, name="exec_" + name, timeout=2400, env=env, extra_overlay=overlay())
     trace = os.path.join(res["dir"], "trace.ndjson")
-    if res["rc"] != 0 or not os.path.exists(trace):
+    htrace = os.path.join(res["dir"], "trace_hist.ndjson")
+    if res["rc"] != 0 or (scheds and not os.path.exists(trace)) or (hist is not None and not os.path.exists(htrace)):
         raise Inconclusive("executor failed (%s):\n%s" % (name, res["out"][-3000:]))
-    return trace
+    return (trace, htrace) if hist is not None else trace
 
 
 def cell_text(reset):
@@ -425,6 +452,288 @@ def negative_controls(ck, recs, nh, quirks):
                                                 rejected_by=v["invariant"], at_line=v["line"]))
 
 
+# ---------------------------------------------------------------------------------------------- part H: histories
+HIST_GRACE = 2
+HOUT = [(0, 0, 1), (0, 1, 1), (1, 1, 1), (0, 1, 0)]      # <<L, R, P>> of an offered HTLC, a pending set was reported
+HOUT0 = [(0, 1, 0), (1, 1, 0)]
+HIN = [(1, 0, 0), (1, 0, 1), (1, 1, 0), (1, 1, 1)]
+HIN0 = [(1, 0, 0), (1, 1, 0)]
+
+
+def hist_is_reset(r):
+    return r.get("a") == "Reset"
+
+
+def hist_model_checking(ck):
+    thorough = ck.tier == "thorough"
+    ck.model_check(SPEC, "ChainActionsHistMC", "ChainActionsHistMC.cfg", "histories, 1 HTLC: every universe x every history "
+                   "(3 blocks, 3 ticks)", name="mch_nh1", workers=MC_WORKERS, timeout=1800)
+    c2 = {"NH": 2, "Dusts": "DustNo", "MaxClock": 2}
+    if not thorough:
+        c2.update({"Cuts": "CutsOne", "Srcs": "SrcBeacon", "MaxH": 2})
+    ck.model_check(SPEC, "ChainActionsHistMC", "ChainActionsHistMC.cfg", "histories, 2 HTLCs (%s)" % (
+        "cut in {0,1,2,far}, 3 blocks, 2 ticks, no dust" if thorough else "cut in {1,far}, 2 blocks, 2 ticks, beacon only, no dust"),
+        constants=c2, name="mch_nh2", workers=MC_WORKERS, timeout=3000)
+    if thorough:
+        ck.model_check(SPEC, "ChainActionsHistMC", "ChainActionsHistMC.cfg", "histories, 2 HTLCs with dust (cut in {1,far}, 2 blocks, "
+                       "2 ticks, beacon only)", name="mch_nh2_dust", workers=MC_WORKERS, timeout=3000,
+                       constants={"NH": 2, "Cuts": "CutsOne", "Srcs": "SrcBeacon", "Invoices": "FALSE", "MaxH": 2, "MaxClock": 2})
+        ck.model_check(SPEC, "ChainActionsHistMC", "ChainActionsHistMC.cfg", "histories, 3 HTLCs (own payments and received, cut in "
+                       "{1,far}, 1 block, 2 ticks, beacon only, no dust)", name="mch_nh3", workers=MC_WORKERS, timeout=3000,
+                       constants={"NH": 3, "Cuts": "CutsOne", "Dusts": "DustNo", "Srcs": "SrcBeacon", "Invoices": "FALSE",
+                                  "Fwds": "FwdNo", "MaxH": 1, "MaxClock": 2})
+    # non-vacuity: the two classes of history-dependent defects must break the property in the model
+    ctl = []
+    for q in ("StaleLookups", "SignalRestartsGrace"):
+        w = ck.model_check(SPEC, "ChainActionsHistMC", "ChainActionsHistMC.cfg", "control: %s must break GoesOnChainInTimeH" % q,
+                           must_hold=False, constants={q: "TRUE"}, name="mch_ctl_" + q, workers=2, timeout=900)
+        if w.violation != "invariant GoesOnChainInTimeH":
+            raise Inconclusive("history model with %s = TRUE does not violate GoesOnChainInTimeH (%s): the invariant is vacuous"
+                               % (q, w.violation))
+        ctl.append(q)
+    ck.cov["hist_model_controls"] = ctl
+
+
+def hist_cells(rng, n, nh):
+    """A seeded sample of universes from the domain of ChainActionsHist!Init."""
+    cells = []
+    while len(cells) < n:
+        hp = rng.random() < 0.6
+        attr, onl, onr, onp, known = [], [], [], [], []
+        for i in range(nh):
+            x = rng.random()
+            if x < (0.0 if i == 0 else 0.3):
+                attr.append({"dir": "none", "fwd": 0, "cut": 50, "dl": 0, "dr": 0})
+                pat, kn = (0, 0, 0), "no"
+            elif x < 0.65:
+                attr.append({"dir": "out", "fwd": int(rng.random() < 0.45), "cut": rng.choice((0, 1, 1, 2, 2, 3, 3, 4, 5, 50)),
+                             "dl": int(rng.random() < 0.2), "dr": int(rng.random() < 0.2)})
+                pat = (0, 0, 0) if rng.random() < 0.12 else rng.choice(HOUT if hp else HOUT0)
+                kn = "beacon" if rng.random() < 0.12 else "no"
+            else:
+                attr.append({"dir": "in", "fwd": 0, "cut": rng.choice((0, 1, 1, 2, 2, 3, 3, 4, 5, 50)),
+                             "dl": int(rng.random() < 0.2), "dr": int(rng.random() < 0.2)})
+                pat = (0, 0, 0) if rng.random() < 0.12 else rng.choice(HIN if hp else HIN0)
+                kn = rng.choice(("no", "no", "no", "no", "invoice", "beacon", "registry"))
+            onl.append(pat[0]), onr.append(pat[1]), onp.append(pat[2]), known.append(kn)
+        c = {"dout": rng.randint(1, 12), "din": rng.randint(1, 12), "grace": HIST_GRACE, "attr": attr, "onL": onl,
+             "onR": onr, "onP": onp, "hasP": int(hp), "known": known}
+        # HtlcIndex: offered and received HTLCs are numbered by independent counters
+        for d in ("out", "in"):
+            hs = [a for a in attr if a["dir"] == d]
+            ids = list(range(len(hs)))
+            rng.shuffle(ids)
+            for a, i in zip(hs, ids):
+                a["idx"] = i
+        for a in attr:
+            a.setdefault("idx", 0)
+        c["id"] = len(cells) + 1
+        cells.append(c)
+    return cells
+
+
+def hist_cells_tla(cells):
+    def b(x):
+        return "TRUE" if x else "FALSE"
+
+    def sset(v):
+        return "{" + ", ".join(str(i + 1) for i, x in enumerate(v) if x) + "}"
+    recs = []
+    for c in cells:
+        attr = ", ".join('[dir |-> "%s", fwd |-> %s, cut |-> %d, dustL |-> %s, dustR |-> %s]' % (
+            a["dir"], b(a["fwd"]), a["cut"], b(a["dl"]), b(a["dr"])) for a in c["attr"])
+        recs.append('[id |-> %d, hasP |-> %s, onL |-> %s, onR |-> %s, onP |-> %s, attr |-> <<%s>>, known |-> <<%s>>]' % (
+            c["id"], b(c["hasP"]), sset(c["onL"]), sset(c["onR"]), sset(c["onP"]), attr,
+            ", ".join('"%s"' % k for k in c["known"])))
+    return ("------------------------ MODULE ChainActionsHistCells ------------------------\n"
+            "(* generated by vlib/props/c12.py: a seeded sample of universes *)\n"
+            "Cells == {\n  " + ",\n  ".join(recs) + " }\n"
+            "=============================================================================\n")
+
+
+def hist_generate(ck, rng):
+    thorough = ck.tier == "thorough"
+    nh = 3
+    cells = hist_cells(rng, 400 if thorough else 120, nh)
+    d = ck.scratch("hist_cells")
+    cp = os.path.join(d, "ChainActionsHistCells.tla")
+    open(cp, "w").write(hist_cells_tla(cells))
+    num = 8000 if thorough else 1600
+    r = ck.tlc(SPEC, "ChainActionsHistGen", "ChainActionsHistGen.cfg", name="genh", mode="sim", workers=1, sim_num=num,
+               sim_depth=60, constants={"NH": nh, "Grace": HIST_GRACE}, files={"ChainActionsHistCells.tla": cp}, timeout=1800)
+    import glob
+    files = glob.glob(os.path.join(r.dir, "b_*.ndjson"))
+    if r.error or r.violation or not files:
+        raise Inconclusive("history generation failed: %s\n%s" % (r.error or r.violation or "no behaviours", r.out[-2000:]))
+    by_id = {c["id"]: c for c in cells}
+    seen, hist = set(), []
+    for f in sorted(files, key=lambda f: int(re.sub(r"\D", "", os.path.basename(f)) or 0)):
+        for b in core.read_ndjson(f):
+            c = by_id[b["id"]]
+            k = core.sha(json.dumps([c["attr"], c["onL"], c["onR"], c["onP"], c["hasP"], c["known"], b["ev"]], sort_keys=True))
+            if k in seen or not any(e["a"] == "Block" for e in b["ev"]):
+                continue
+            seen.add(k)
+            h = {k2: c[k2] for k2 in ("dout", "din", "grace", "attr", "onL", "onR", "onP", "hasP", "known")}
+            h.update({"id": len(hist) + 1, "cell": c["id"], "ev": b["ev"]})
+            hist.append(h)
+        os.remove(f)
+    core.log("  [gen] histories: %d behaviours simulated from %d universes, %d distinct with at least one block, %.0fs" % (
+        len(files), len(cells), len(hist), r.wall))
+    ck.cov["model_runs"].append(dict(what="generate histories (simulate)", behaviours=len(files), universes=len(cells),
+                                     distinct=len(hist), wall_s=round(r.wall, 1)))
+    if len(hist) < num // 4:
+        raise Inconclusive("too few distinct histories generated (%d)" % len(hist))
+    return hist
+
+
+def hist_text(one):
+    r0 = one[0]
+    hs = []
+    for i, a in enumerate(r0["attr"]):
+        if a["dir"] == "none":
+            continue
+        hs.append("#%d %s%s cutoff=%d L%dR%dP%d%s%s known=%s" % (
+            i + 1, a["dir"], ("/fwd" if a["fwd"] else "/own") if a["dir"] == "out" else "", 100 + a["cut"],
+            r0["onL"][i], r0["onR"][i], r0["onP"][i], " dustL" if a["dl"] else "", " dustR" if a["dr"] else "", r0["known"][i]))
+    evs = []
+    for r in one[1:]:
+        x = r["a"]
+        if x == "HtlcUpdate":
+            x += "(%s=%s)" % (r["k"], "".join(str(v) for v in r["set"]))
+        elif x in ("LearnPreimage", "AddInvoice"):
+            x += "(#%d%s)" % (r["s"], "," + r["src"] if r["src"] else "")
+        elif x == "Block":
+            x += "(%d)" % r["height"]
+        evs.append("%s->%s" % (x, r["st"][:7]) if r["a"] in ("Start", "Block") else x)
+    return "[%s] hasP=%s grace=%s ticks; %s" % ("; ".join(hs), r0["hasP"], r0["grace"], " ".join(evs))
+
+
+def hist_store(ck, recs, line, tag):
+    a, b = core.slice_trace(recs, line or 1, hist_is_reset)
+    one = recs[a:b]
+    d = ck.scratch("fail_" + tag)
+    tp = os.path.join(d, "trace_hist.ndjson")
+    core.write_ndjson(tp, one)
+    r0 = one[0]
+    sched = {k: r0[k] for k in ("dout", "din", "grace", "attr", "onL", "onR", "onP", "hasP", "known")}
+    sched.update({"id": 1, "cell": r0.get("cell", 0),
+                  "ev": [{k: r[k] for k in ("a", "k", "set", "s", "src")} for r in one[1:]]})
+    sp = os.path.join(d, "sched_hist.ndjson")
+    core.write_ndjson(sp, [sched])
+    return one, {"trace_hist.ndjson": tp, "sched_hist.ndjson": sp}
+
+
+def hist_validate(ck, trace, name):
+    """Validate the recorded histories in batches; returns (records, accepted traces, rejections)."""
+    recs = core.read_ndjson(trace)
+    nh = max(len(r["attr"]) for r in recs if hist_is_reset(r))
+    batches = core.split_batches(recs, hist_is_reset, max_bytes=12_000_000)
+    consts = {"NH": nh, "Grace": HIST_GRACE}
+
+    def one_batch(i, b):
+        res, cur = [], b
+        for attempt in range(4):
+            p = os.path.join(ck.out, "hbatch_%s_%d_%d.ndjson" % (name, i, attempt))
+            core.write_ndjson(p, cur)
+            v = ck.validate(SPEC, "ChainActionsHistTrace", "ChainActionsHistTrace.cfg", p, constants=consts,
+                            name="valh_%s_%d_%d" % (name, i, attempt), timeout=3000)
+            os.remove(p)
+            res.append((cur, v))
+            if v["ok"]:
+                break
+            a, e = core.slice_trace(cur, v["line"] or 1, hist_is_reset)
+            cur = cur[:a] + cur[e:]
+            if not cur:
+                break
+        return res
+
+    with concurrent.futures.ThreadPoolExecutor(max_workers=3) as ex:
+        results = [f.result() for f in [ex.submit(one_batch, i, b) for i, b in enumerate(batches)]]
+    ok, rejected = 0, []
+    for res in results:
+        for cur, v in res:
+            if not v["ok"]:
+                rejected.append((cur, v))
+        if res and res[-1][1]["ok"]:
+            ok += sum(1 for r in res[-1][0] if hist_is_reset(r))
+    return recs, ok, rejected
+
+
+def hist_report(ck, rejected, replay=False):
+    seen = set()
+    for cur, v in rejected:
+        badl = cur[min(max((v["line"] or 1) - 1, 0), len(cur) - 1)]
+        inv = (v["invariant"] or "rejected").replace("invariant ", "")
+        key = "C12:Hist:%s:%s" % (inv, "replay" if replay else badl.get("a"))
+        if key in seen:
+            continue
+        seen.add(key)
+        one, files = hist_store(ck, cur, v["line"], "hist_rejected")
+        a, _ = core.slice_trace(cur, v["line"] or 1, hist_is_reset)
+        upto = one[: max(2, (v["line"] or 1) - a)]
+        ck.violation(key, "real ChannelArbitrator breaks C12 in a HISTORY (spec/ChainActions/ChainActionsHist, %s at event %d "
+                          "of the history): %s || rejected record: %s" % (
+                              inv, (v["line"] or 1) - a - 1, hist_text(upto), json.dumps(badl)[:300]),
+                     files=files, text=v["cex"])
+
+
+def hist_negative_controls(ck, recs):
+    consts = {"NH": max(len(r["attr"]) for r in recs if hist_is_reset(r)), "Grace": HIST_GRACE}
+    resets = [i for i, r in enumerate(recs) if hist_is_reset(r)]
+    erased = failed = None
+    for a in resets:
+        _, b = core.slice_trace(recs, a + 1, hist_is_reset)
+        one = copy.deepcopy(recs[a:b])
+        dec = [i for i, r in enumerate(one) if i > 0 and r["st"] != "Default"]
+        if not dec:
+            continue
+        if erased is None and one[dec[0]]["a"] == "Block":
+            # the arbitrator "did not go": state and calls of the deciding line and of all later ones are reset
+            e = copy.deepcopy(one)
+            for r in e[dec[0]:]:
+                r.update({"st": "Default", "fc": 0, "pub": 0, "fails": [0] * len(r["fails"])})
+            erased = e
+        if failed is None:
+            f = copy.deepcopy(one)
+            f[-1]["fails"][0] += 1
+            failed = f
+        if erased and failed:
+            break
+    if erased is None or failed is None:
+        raise Inconclusive("no recorded history with a decision at a block for the negative controls")
+    for tag, bad, what in (("erased", erased, "decision erased (st/fc/pub of the deciding Block line and all later lines reset)"),
+                           ("failplus", failed, "fails[0]+1 on the last line")):
+        p = os.path.join(ck.out, "hcontrol_%s.ndjson" % tag)
+        core.write_ndjson(p, bad)
+        v = ck.validate(SPEC, "ChainActionsHistTrace", "ChainActionsHistTrace.cfg", p, constants=consts, name="hcontrol_" + tag)
+        if v["ok"]:
+            raise Inconclusive("history negative control accepted (%s): trace validation is not binding" % what)
+        ck.cov.setdefault("negative_controls", []).append(dict(part="histories", mutation=what, rejected_by=v["invariant"],
+                                                               at_line=v["line"]))
+
+
+def hist_finish(ck, hist, htrace, name="hist", replay=False):
+    recs, ok, rejected = hist_validate(ck, htrace, name)
+    hist_report(ck, rejected, replay)
+    ev = sum(1 for r in recs if not hist_is_reset(r))
+    blocks = sum(1 for r in recs if r["a"] in ("Block", "Start"))
+    decided = sum(1 for i, r in enumerate(recs) if r["a"] in ("Block", "Start") and r["st"] != "Default"
+                  and recs[i - 1].get("st", "Default") == "Default")
+    ck.cov["hist_histories"] = len(hist)
+    ck.cov["hist_events_recorded"] = ev
+    ck.cov["hist_chain_trigger_passes"] = blocks
+    ck.cov["hist_decisions_observed"] = decided
+    ck.cov["hist_traces_validated"] = ok
+    ck.cov["hist_events_by_kind"] = dict(collections.Counter(r["a"] for r in recs if not hist_is_reset(r)))
+    if not rejected and not replay:
+        hist_negative_controls(ck, recs)
+    if recs:
+        e0 = core.slice_trace(recs, 1, hist_is_reset)[1]
+        ck.cov["samples"].append({"history": hist_text(recs[:e0])})
+    return recs, ok, rejected
+
+
 def dev_known(ck):
     globs = [g for g in os.environ.get("C12_KNOWN_GLOBS", "").split(",") if g]
     for g in globs:
@@ -442,11 +751,29 @@ def run(ck):
     if getattr(ck, "replay", None):
         return replay(ck, reps)
 
+    if os.environ.get("C12_ONLY_HIST"):
+        # development: part H alone
+        ck.notes.append("C12_ONLY_HIST: only the history part was run (development)")
+        if not os.environ.get("C12_SKIP_MC"):
+            hist_model_checking(ck)
+        hist = hist_generate(ck, random.Random(ck.seed * 7919 + 12))
+        _, htrace = execute(ck, [], "hist", reps, hist=hist)
+        _, hok, _ = hist_finish(ck, hist, htrace)
+        ck.cov["evaluations"] = len(hist)
+        ck.cov["distinct_nontrivial"] = len(hist)
+        ck.cov["traces_validated_against_impl"] = hok
+        ck.cov["states"] = max(1, ck.cov["states"])
+        ck.cov["transitions"] = max(1, ck.cov["transitions"])
+        ck.cov["rule"] = "part H only (development)"
+        return
+
     if os.environ.get("C12_SKIP_MC"):
         predicted = None
         ck.notes.append("C12_SKIP_MC: model checking skipped (control run)")
     else:
         predicted = model_checking(ck)
+        if not SKIP_HIST:
+            hist_model_checking(ck)
         ck.cov["exhaustive"] = True
 
     # ---- schedules
@@ -475,8 +802,14 @@ def run(ck):
                  len(s1), "all" if thorough else "stratified sample", len(all1), len(sm), "all" if thorough else "sample",
                  len(allm), len(s2), len(s3), len(scheds), ck.cov["schedules_with_shared_htlc_index"]))
 
+    # ---- part H: histories (own random stream: the cell schedules above do not depend on it)
+    hist = None if SKIP_HIST else hist_generate(ck, random.Random(ck.seed * 7919 + 12))
+
     # ---- execute on the real arbitrator, validate
-    trace = execute(ck, scheds, "all", reps)
+    if hist is None:
+        trace, htrace = execute(ck, scheds, "all", reps), None
+    else:
+        trace, htrace = execute(ck, scheds, "all", reps, hist=hist)
     quirks, rejected = {}, []
     recs, ntraces = validate_batches(ck, trace, nh, "all", quirks, rejected)
     ck.cov["evaluations"] = len(scheds) * reps
@@ -526,10 +859,22 @@ def run(ck):
     if not rejected:
         negative_controls(ck, recs, nh, quirks)
 
+    # ---- part H: the recorded histories, judged by ChainActionsHistTrace
+    if hist is not None:
+        hreps = 2 if thorough else 1
+        _, hok, _ = hist_finish(ck, hist, htrace)
+        ck.cov["evaluations"] += len(hist) * hreps
+        ck.cov["distinct_nontrivial"] += len(hist)
+        ck.cov["traces_validated_against_impl"] += hok
+
     ck.cov["rule"] = ("one HTLC: every (cell, path) TLC enumerates (thorough) or a seeded sample covering every (direction, "
                       "presence pattern, path) twice (quick); two HTLCs: TLC -simulate from the seed; 3-5 HTLCs with arbitrary "
                       "deltas / more blocks / refused force-close requests: seeded random driver; every schedule "
                       "run %dx on a real ChannelArbitrator; distinct = distinct (cell, path) hashes" % reps)
+    if hist is not None:
+        ck.cov["rule"] += ("; histories: TLC -simulate of ChainActionsHist from a seeded sample of universes (1-3 HTLCs), "
+                           "every distinct history with at least one block replayed on a real, running ChannelArbitrator "
+                           "(distinct = distinct (universe, event sequence) hashes)")
     for k in sorted(quirks)[:3]:
         cur, line = quirks[k]
         a, b = core.slice_trace(cur, line, is_reset)
@@ -540,16 +885,31 @@ def run(ck):
                               "final": {x: recs[e0 - 2].get(x) for x in ("st", "fails", "rn", "rk")}})
     ck.cov["trusted_base"] = ["TLC 1.8.0", "CommunityModules Json", "fixture createTestChannelArbitrator (mock channel, notifier, "
                               "sweeper that never reports a result, witness beacon)", "executor projection: ResolutionMsg / "
-                              "PutFinalHtlcOutcome / first InsertUnresolvedContracts / CommitState taps"]
+                              "PutFinalHtlcOutcome / first InsertUnresolvedContracts / CommitState taps",
+                              "histories: test clock (1 tick = 1 minute), goroutine-safe witness beacon / invoice registry "
+                              "stand-ins, notifyContractUpdate / UpdateContractSignals / ProcessBlock called directly"]
     ck.assumptions += ["resolvers make no progress on their own (no spend / epoch notifications are delivered): what is judged "
                        "is the arbitrator's own disposition at close time, not the resolvers' later behaviour (C13)",
                        "RefundTimeout >= broadcast delta (the uint32 underflow corner is outside the domain)",
-                       "two/three-HTLC cells take the presence patterns per HTLC independently (given the pending commitment exists)"]
+                       "two/three-HTLC cells take the presence patterns per HTLC independently (given the pending commitment exists)",
+                       "histories: the link reports one commitment's set at a time and every HTLC stays in a presence pattern "
+                       "the protocol allows; dust status is the same on the remote and the remote-pending commitment; the "
+                       "arbitrator is not restarted within a history; ForceCloseChan succeeds"]
 
 
 def replay(ck, reps):
     d = ck.replay
     sp = os.path.join(d, "sched.ndjson")
+    hp = os.path.join(d, "sched_hist.ndjson")
+    if os.path.exists(hp):
+        hist = core.read_ndjson(hp)
+        _, htrace = execute(ck, [], "replay", reps, hist=hist)
+        recs, ok, _ = hist_finish(ck, hist, htrace, name="replay", replay=True)
+        ck.cov["evaluations"] = len(hist)
+        ck.cov["traces_validated_against_impl"] = ok
+        ck.cov["states"] = ck.cov["transitions"] = max(1, len(recs))
+        ck.cov["rule"] = "replay of a stored history"
+        return
     if not os.path.exists(sp):
         raise Inconclusive("replay dir has no sched.ndjson")
     scheds = core.read_ndjson(sp)
